@@ -191,6 +191,12 @@ impl<const N: usize> Bindings<N> {
         })
     }
 
+    /// Read-only copy of every entry (out-of-tree verification harness).
+    #[cfg(feature = "verif")]
+    pub fn verif_entries(&self) -> Vec<Binding, N> {
+        self.state.lock(|cell| cell.borrow().clone())
+    }
+
     /// Serialise the registry to `ctx.kv()` under [`BINDINGS_KEY`].
     fn store_persist<C: HandlerContext>(&self, ctx: &C) -> Result<(), Error> {
         let mut persist = Persist::new(ctx.kv());
